@@ -1,10 +1,11 @@
 """C02 - SRP-6a client values equal those of a spec-conformant accessory."""
 from __future__ import annotations
 
+import json
 from unittest import mock
 
 from harness import cryptoval, refacc
-from harness.common import Ctx, Driver, compare_with_model, hx, load_corpus
+from harness.common import Ctx, Driver, compare_with_model, hx, load_corpus, unhx
 
 import aiohomekit.crypto.srp as srpmod
 from aiohomekit.crypto.srp import SrpClient
@@ -12,10 +13,16 @@ from aiohomekit.crypto.srp import SrpClient
 ID = "C02"
 RULE = ("random setup codes / salts (random, all-zero, leading-zero) / ephemeral secrets, plus a DIRECTED search (drawing secrets until the value starts with 0x00) for leading-zero "
         "bytes in A, B, S, M1, M2 and the salt; wrong-code exchanges; every single-bit flip of a sample of server proofs; a proof with a zero byte prepended/stripped. "
-        "non-trivial = distinct (which values had a leading zero, code right/wrong, proof mutation class)")
+        "TRANSPORT level: BleDiscovery / IpDiscovery / CoAPDiscovery async_start_pairing -> finish_pairing against a conformant accessory that starts a new exchange (new salt, b, B) "
+        "at every M1, over histories with several M1/M2 before the code is used (wrong code then right code on the same discovery, link drop while M2/M3/M4/M5 is in flight followed by "
+        "the library's own retry or a restart, start twice, two discoveries, pair - reset - pair; fixed list plus random compositions; MTUs, TLV fragmentation, TCP segmentation drawn): "
+        "A / M1 / K judged against the exchange the accessory is running NOW. "
+        "non-trivial = distinct (which values had a leading zero, code right/wrong, proof mutation class; transport, history, outcomes)")
 TRUSTED = ["hashlib.sha512 and Python big-int pow in the reference server (harness/refacc.py, RFC 5054 formulas written out)", "Lean Real SHA-512 (validated differentially each run)"]
 ASSUMPTIONS = ["SRP hardness: a wrong setup code gives a different shared secret (not proved; exercised by the wrong-code stream)",
-               "the client's ephemeral secret is pinned by patching os.urandom in aiohomekit.crypto.srp for the duration of the constructor"]
+               "the client's ephemeral secret is pinned by patching os.urandom in aiohomekit.crypto.srp for the duration of the constructor",
+               "transport stream: only the radio / network / clock are replaced - bleak's connection by a GATT server speaking HAP-BLE PDUs (establish_connection patched), TCP by harness.simnet, "
+               "aiocoap's client context by a datagram stub, time by the virtual loop; os.urandom is a seeded stream so the controller's secret a is known to the oracle"]
 EXPLANATION = "Lean theorems C02_* (group constants, k = H(PAD N|PAD g) evaluated in the kernel, padding for all n, shared-secret agreement and value equality for any hash function); differential tie on the public SrpClient API"
 
 
@@ -82,6 +89,594 @@ def through_generators(ctx, pin, salt, b, a_bytes, kind):
     except Exception:  # noqa: BLE001
         return ctx.violation("generators/K", f"the accessory cannot open M5: the controller's session key is not the accessory's 64-byte K (K starts with {hx(srv.K[:2])})", case)
     return None
+
+
+# ---------------------------------------------------------------------------------------------------------------------
+# transport level: the exchange as the TRANSPORTS run it (BleDiscovery / IpDiscovery / CoAPDiscovery .async_start_pairing
+# -> finish_pairing), over histories in which more than one M1/M2 exchange happens before the setup code is used
+# ---------------------------------------------------------------------------------------------------------------------
+class SetupAccessory:
+    """A conformant pair-setup accessory (HAP 5.6, M1..M6) written with harness.refacc only.  The exchange in progress
+    is bound to the LINK it was started on: every M1 starts a NEW exchange (fresh salt, fresh b, hence fresh B), a lost
+    link or a failed M3 abandons it.  Everything the oracle needs is recorded per exchange; `call` is the harness's own
+    count of the controller-side call in progress."""
+
+    def __init__(self, pin, rnd):
+        self.pin, self.rnd = pin, rnd
+        self.exchanges = []  # one record per M1/M2
+        self.stray = []  # M3/M5 that arrived on a link with no exchange in progress
+        self.cur = None
+        self.call = 0
+        self.drop = None  # armed link drop [state, phase]
+        self.dropped = []
+        self.reset()
+
+    def rb(self, n):
+        return bytes(self.rnd.randrange(256) for _ in range(n))
+
+    def reset(self):
+        """factory reset: pairings removed, new long-term key"""
+        from cryptography.hazmat.primitives.asymmetric import ed25519
+        self.ltsk = ed25519.Ed25519PrivateKey.from_private_bytes(self.rb(32))
+        self.ltpk = self.ltsk.public_key().public_bytes(**refacc.RAW)
+        self.acc_id = b"12:34:56:00:01:0A"
+        self.paired = False
+        self.cur = None
+
+    def link_lost(self, link):
+        if self.cur is not None and self.cur["link"] == link:
+            self.cur = None
+
+    def take_drop(self, body):
+        """is a link drop armed for this pairing message?  -> 'req' (the message never arrives) | 'resp' (it is processed,
+        the reply is lost) | 'resp-mid' (the reply is cut) | None"""
+        if self.drop is None:
+            return None
+        try:
+            st = refacc.untlv(body).get(6)
+        except Exception:  # noqa: BLE001
+            return None
+        if st != bytes([self.drop[0]]):
+            return None
+        phase = self.drop[1]
+        self.dropped.append((self.call, self.drop[0], phase))
+        self.drop = None
+        if self.cur is not None:
+            self.cur["lost"] = True  # whatever the controller does next, it never saw the end of this exchange
+        return phase
+
+    def handle(self, link, body):
+        from cryptography.hazmat.primitives.asymmetric import ed25519
+        from cryptography.hazmat.primitives.ciphers.aead import ChaCha20Poly1305
+        d = refacc.untlv(body)
+        st = d.get(6)
+        if st == b"\x01":
+            if self.paired:
+                return refacc.tlv([(6, b"\x02"), (7, b"\x06")])
+            salt = self.rnd.choice([self.rb(16), self.rb(16), bytes(16), b"\0" + self.rb(15)])
+            srv = refacc.SrpServer(self.pin, salt, int.from_bytes(self.rb(32), "big"))
+            self.cur = {"n": len(self.exchanges) + 1, "link": link, "srv": srv, "m3": None, "m4": False, "m5": None, "lost": False, "call": self.call}
+            self.exchanges.append(self.cur)
+            return refacc.tlv([(6, b"\x02"), (3, refacc.PAD(srv.B)), (2, salt)])
+        if st == b"\x03":
+            rec = self.cur
+            if rec is None or rec["link"] != link or rec["m3"] is not None:
+                self.stray.append({"call": self.call, "state": 3, "A": d.get(3, b""), "proof": d.get(4, b"")})
+                return refacc.tlv([(6, b"\x04"), (7, b"\x01")])
+            srv = rec["srv"]
+            srv.on_A(d.get(3, b""))
+            rec["m3"] = {"call": self.call, "A": d.get(3, b""), "proof": d.get(4, b"")}
+            if srv.A % refacc.N3072 == 0 or d.get(4) != srv.M1:
+                self.cur = None
+                return refacc.tlv([(6, b"\x04"), (7, b"\x02")])
+            rec["m4"] = True
+            return refacc.tlv([(6, b"\x04"), (4, srv.M2)])
+        if st == b"\x05":
+            rec = self.cur
+            if rec is None or rec["link"] != link or not rec["m4"] or rec["m5"] is not None:
+                self.stray.append({"call": self.call, "state": 5})
+                return refacc.tlv([(6, b"\x06"), (7, b"\x01")])
+            K = rec["srv"].K
+            ekey = refacc.hk(K, b"Pair-Setup-Encrypt-Salt", b"Pair-Setup-Encrypt-Info")
+            try:
+                sub = refacc.untlv(ChaCha20Poly1305(ekey).decrypt(b"\0\0\0\0PS-Msg05", d[5], b""))
+                cx = refacc.hk(K, b"Pair-Setup-Controller-Sign-Salt", b"Pair-Setup-Controller-Sign-Info")
+                ed25519.Ed25519PublicKey.from_public_bytes(sub[3]).verify(sub[10], cx + sub[1] + sub[3])
+            except Exception:  # noqa: BLE001
+                rec["m5"] = "bad"
+                self.cur = None
+                return refacc.tlv([(6, b"\x06"), (7, b"\x02")])
+            rec["m5"] = "ok"
+            ax = refacc.hk(K, b"Pair-Setup-Accessory-Sign-Salt", b"Pair-Setup-Accessory-Sign-Info")
+            sig = self.ltsk.sign(ax + self.acc_id + self.ltpk)
+            enc = ChaCha20Poly1305(ekey).encrypt(b"\0\0\0\0PS-Msg06", refacc.tlv([(1, self.acc_id), (3, self.ltpk), (10, sig)]), b"")
+            self.cur = None
+            self.paired = True
+            return refacc.tlv([(6, b"\x06"), (5, enc)])
+        return refacc.tlv([(6, b"\x02"), (7, b"\x01")])
+
+
+class _GattChar:
+    max_write_without_response_size = None
+
+    def __init__(self, uuid, iid):
+        self.uuid, self.iid, self.handle, self.properties = uuid, iid, iid, ["read", "write"]
+
+
+class GattLink:
+    """The radio: one BLE connection to a HAP-BLE GATT server.  Stands in for AIOHomeKitBleakClient; everything above
+    GATT reads/writes is the library's own code.  The server side speaks HAP-BLE PDUs (R2 7.3): request reassembly over
+    continuation fragments, CHAR_READ / CHAR_WRITE with the HAP-Param TLVs, responses fragmented to the accessory's
+    own MTU, optionally the pairing reply split over FragmentData / FragmentLast items."""
+
+    def __init__(self, acc, link, cfg):
+        from aiohomekit.model import CharacteristicsTypes
+        self.acc, self.link, self.cfg = acc, link, cfg
+        self.is_connected = True
+        self.address = "AA:BB:CC:DD:EE:FF"
+        self.features = _GattChar(CharacteristicsTypes.PAIRING_FEATURES, cfg["iids"][0])
+        self.setup = _GattChar(CharacteristicsTypes.PAIR_SETUP, cfg["iids"][1])
+        self.rx, self.tx, self.more = {}, {}, []
+        self.die_at_read = None
+
+    def _alive(self):
+        from bleak.exc import BleakError
+        if not self.is_connected:
+            raise BleakError("Not connected")
+
+    def _die(self):
+        from bleak.exc import BleakError
+        self.is_connected = False
+        self.acc.link_lost(self.link)
+        raise BleakError("disconnected")
+
+    async def get_characteristic(self, service, characteristic, iid=None):
+        from aiohomekit.controller.ble.bleak import BleakCharacteristicMissing
+        for ch in (self.features, self.setup):
+            if ch.uuid.lower() == characteristic.lower():
+                return ch
+        raise BleakCharacteristicMissing(f"{characteristic} not found")
+
+    async def get_characteristic_iid(self, ch):
+        return ch.iid
+
+    def determine_fragment_size(self, overhead, handle):
+        return self.cfg["mtu"] - 3 - overhead
+
+    async def clear_cache(self):
+        return True
+
+    async def disconnect(self):
+        self.is_connected = False
+        self.acc.link_lost(self.link)
+
+    async def write_gatt_char(self, handle, data, response):
+        self._alive()
+        data = bytes(data)
+        if data[0] & 0x80:
+            st = self.rx.get(handle.uuid)
+            if st is None or st["tid"] != data[1]:
+                return
+            st["body"] += data[2:]
+        else:
+            st = {"op": data[1], "tid": data[2], "iid": int.from_bytes(data[3:5], "little"), "len": int.from_bytes(data[5:7], "little") if len(data) >= 7 else 0, "body": data[7:]}
+            self.rx[handle.uuid] = st
+            self.tx[handle.uuid] = []  # a new request voids an unread response
+        if len(st["body"]) >= st["len"]:
+            del self.rx[handle.uuid]
+            self._request(handle, st)
+
+    def _request(self, ch, st):
+        status, value = 0, b""
+        self.die_at_read = None
+        if st["iid"] != ch.iid:
+            status = 4
+        elif st["op"] == 3 and ch is self.features:
+            value = bytes([self.cfg["ff"]])
+        elif st["op"] == 2 and ch is self.setup:
+            msg = refacc.untlv(st["body"][:st["len"]]).get(1, b"")
+            if msg == b"\x0c\x00" and self.more:
+                value = self.more.pop(0)  # the controller acknowledged a fragment of the pairing reply
+            else:
+                phase = self.acc.take_drop(msg)
+                if phase == "req":
+                    self._die()
+                reply = self.acc.handle(self.link, msg)
+                n = self.cfg["tlvfrag"]
+                self.more = []
+                if n and len(reply) > n:
+                    chunks = [reply[i:i + n] for i in range(0, len(reply), n)]
+                    self.more = [refacc.tlv([(12, c)]) for c in chunks[1:-1]] + [refacc.tlv([(13, chunks[-1])])]
+                    value = refacc.tlv([(12, chunks[0])])
+                else:
+                    value = reply
+                self.die_at_read = {"resp": 0, "resp-mid": 1}.get(phase)
+        else:
+            status = 6
+        body = refacc.tlv([(1, value)]) if status == 0 else b""
+        n = self.cfg["rmtu"] - 3
+        frags = [bytes([0x02, st["tid"], status]) + len(body).to_bytes(2, "little") + body[:n - 5]]
+        rest = body[n - 5:]
+        frags += [bytes([0x82, st["tid"]]) + rest[i:i + n - 2] for i in range(0, len(rest), n - 2)]
+        if self.die_at_read == 1 and len(frags) == 1:
+            self.die_at_read = 0
+        self.tx[ch.uuid] = frags
+
+    async def read_gatt_char(self, handle):
+        self._alive()
+        if self.die_at_read is not None:
+            if self.die_at_read == 0:
+                self.die_at_read = None
+                self._die()
+            self.die_at_read -= 1
+        q = self.tx.get(handle.uuid)
+        return bytearray(q.pop(0)) if q else bytearray()
+
+
+class _Ble:
+    def __init__(self, acc, cfg, controller, loop):
+        self.acc, self.cfg, self.controller, self.links = acc, cfg, controller, 0
+
+    def patches(self):
+        import aiohomekit.controller.ble.discovery as ble_discovery
+        return [mock.patch.object(ble_discovery, "establish_connection", self.establish)]
+
+    async def establish(self, device, name, disconnected_callback=None, **kw):
+        self.links += 1
+        return GattLink(self.acc, "ble%d" % self.links, self.cfg)
+
+    def discovery(self):
+        from types import SimpleNamespace
+
+        from aiohomekit.controller.ble.discovery import BleDiscovery
+        from aiohomekit.controller.ble.manufacturer_data import HomeKitAdvertisement
+        adv = HomeKitAdvertisement.from_cache(address="AA:BB:CC:DD:EE:FF", id=self.acc.acc_id.decode(), config_num=1, state_num=1)
+        return BleDiscovery(self.controller, SimpleNamespace(address="AA:BB:CC:DD:EE:FF", name="acc"), adv, None)
+
+    async def close(self, d):
+        await d._close()
+
+
+class _Ip:
+    """the real HomeKitConnection over harness.simnet; the accessory answers POST /pair-setup, one exchange per TCP connection"""
+
+    def __init__(self, acc, cfg, controller, loop):
+        from harness import simnet
+        self.acc, self.cfg, self.controller, self.loop = acc, cfg, controller, loop
+        self.net = simnet.Net(loop)
+        self.net.handler = self.on_write
+        self.bufs = {}
+
+    def patches(self):
+        return [self.net.patched()]
+
+    def discovery(self):
+        from aiohomekit.controller.ip.discovery import IpDiscovery
+
+        from harness import rcsim
+        return IpDiscovery(self.controller, rcsim.description([1]))
+
+    async def close(self, d):
+        await d.close()
+
+    def on_write(self, t, data):
+        b = self.bufs.get(t.index, b"") + data
+        while True:
+            i = b.find(b"\r\n\r\n")
+            if i < 0:
+                break
+            cl = 0
+            for h in b[:i].split(b"\r\n")[1:]:
+                if h.lower().startswith(b"content-length:"):
+                    cl = int(h.split(b":")[1])
+            if len(b) < i + 4 + cl:
+                break
+            self.loop.call_soon(self.serve, t, b[:i].split(b" ", 2)[1], b[i + 4:i + 4 + cl])
+            b = b[i + 4 + cl:]
+        self.bufs[t.index] = b
+
+    def serve(self, t, target, body):
+        if t.closing or t.closed:
+            return
+        link = "ip%d" % t.index
+        if target != b"/pair-setup":
+            return t.feed(b"HTTP/1.1 404 Not Found\r\nContent-Length: 0\r\n\r\n")
+        phase = self.acc.take_drop(body)
+        if phase == "req":
+            self.acc.link_lost(link)
+            return t.peer_reset()
+        reply = self.acc.handle(link, body)
+        reply = b"HTTP/1.1 200 OK\r\nContent-Type: application/pairing+tlv8\r\nContent-Length: %d\r\n\r\n" % len(reply) + reply
+        if phase == "resp":
+            self.acc.link_lost(link)
+            return t.peer_reset()
+        if phase == "resp-mid":
+            t.feed(reply[:len(reply) // 2])
+            self.acc.link_lost(link)
+            return t.peer_close()
+        n = self.cfg["rmtu"]
+        for i in range(0, len(reply), n):  # the reply arrives in TCP segments of the accessory's choosing
+            t.feed(reply[i:i + n])
+
+
+class _Coap:
+    """aiocoap's client context replaced; every client context is one link (its own source endpoint)"""
+
+    def __init__(self, acc, cfg, controller, loop):
+        self.acc, self.cfg, self.controller, self.links = acc, cfg, controller, 0
+
+    def patches(self):
+        import aiohomekit.controller.coap.connection as coap_conn
+        tr = self
+
+        class Context:
+            @staticmethod
+            async def create_client_context():
+                tr.links += 1
+                return _CoapCtx(tr, "coap%d" % tr.links)
+        return [mock.patch.object(coap_conn, "Context", Context)]
+
+    def discovery(self):
+        from aiohomekit.controller.coap.discovery import CoAPDiscovery
+        from aiohomekit.model.categories import Categories
+        from aiohomekit.model.feature_flags import FeatureFlags
+        from aiohomekit.model.status_flags import StatusFlags
+        from aiohomekit.zeroconf import HomeKitService
+        # HAP over CoAP runs on Thread: the advertised address is IPv6 (the library writes it as [addr]:port)
+        return CoAPDiscovery(self.controller, HomeKitService(
+            name="acc", id=self.acc.acc_id.decode(), model="m", feature_flags=FeatureFlags(self.cfg["ff"]), status_flags=StatusFlags(0), config_num=1, state_num=1,
+            category=Categories.LIGHTBULB, protocol_version="1.1", type="_hap._udp.local.", address="fd00::12:1", addresses=["fd00::12:1"], port=5683))
+
+    async def close(self, d):
+        await d.close()
+
+
+class _CoapCtx:
+    def __init__(self, tr, link):
+        self.tr, self.link, self.down = tr, link, False
+
+    def request(self, msg):
+        from types import SimpleNamespace
+        return SimpleNamespace(response=self._serve(bytes(msg.payload)))
+
+    async def _serve(self, body):
+        import asyncio
+        acc = self.tr.acc
+        phase = None if self.down else acc.take_drop(body)
+        if self.down or phase == "req":
+            acc.link_lost(self.link)
+            await asyncio.sleep(10 ** 6)  # the datagram is lost: the library's own timeout ends the wait
+        reply = acc.handle(self.link, body)
+        if phase is not None:
+            acc.link_lost(self.link)
+            await asyncio.sleep(10 ** 6)
+        from types import SimpleNamespace
+        return SimpleNamespace(payload=reply, code=None)
+
+    async def shutdown(self):
+        self.down = True
+        self.tr.acc.link_lost(self.link)
+
+
+TRANSPORTS = {"ble": _Ble, "ip": _Ip, "coap": _Coap}
+
+# histories: ["new"] a new discovery object | ["start"] async_start_pairing | ["finish", "right" | "wrong"] the callable
+# it returned, with the accessory's setup code or another one | ["drop", state, phase] arm a link drop for the next
+# pairing message with that state number | ["reset"] factory reset of the accessory (it was paired)
+HISTORIES = {
+    "ble": {
+        "plain": [["new"], ["start"], ["finish", "right"]],
+        "wrong-then-right": [["new"], ["start"], ["finish", "wrong"], ["finish", "right"]],
+        "wrong-wrong-right": [["new"], ["start"], ["finish", "wrong"], ["finish", "wrong"], ["finish", "right"]],
+        "drop-M3-written": [["new"], ["start"], ["drop", 3, "req"], ["finish", "right"]],
+        "drop-M4-read": [["new"], ["start"], ["drop", 3, "resp-mid"], ["finish", "right"]],
+        "drop-M4-lost": [["new"], ["start"], ["drop", 3, "resp"], ["finish", "right"]],
+        "drop-M5-written": [["new"], ["start"], ["drop", 5, "req"], ["finish", "right"]],
+        "drop-M2-read": [["new"], ["drop", 1, "resp-mid"], ["start"], ["finish", "right"]],
+        "wrong-then-drop-M3": [["new"], ["start"], ["finish", "wrong"], ["drop", 3, "req"], ["finish", "right"]],
+        "start-twice": [["new"], ["start"], ["start"], ["finish", "right"]],
+        "two-discoveries": [["new"], ["start"], ["finish", "wrong"], ["new"], ["start"], ["finish", "right"]],
+        "pair-reset-pair": [["new"], ["start"], ["finish", "right"], ["reset"], ["new"], ["start"], ["finish", "wrong"], ["finish", "right"]],
+    },
+    "ip": {
+        "plain": [["new"], ["start"], ["finish", "right"]],
+        "wrong-restart-right": [["new"], ["start"], ["finish", "wrong"], ["start"], ["finish", "right"]],
+        "drop-M3-restart": [["new"], ["start"], ["drop", 3, "req"], ["finish", "right"], ["start"], ["finish", "right"]],
+        "drop-M4-restart": [["new"], ["start"], ["drop", 3, "resp-mid"], ["finish", "right"], ["start"], ["finish", "right"]],
+        "start-twice": [["new"], ["start"], ["start"], ["finish", "right"]],
+        "two-discoveries": [["new"], ["start"], ["finish", "wrong"], ["new"], ["start"], ["finish", "right"]],
+        "pair-reset-pair": [["new"], ["start"], ["finish", "right"], ["reset"], ["new"], ["start"], ["finish", "right"]],
+    },
+    "coap": {
+        "plain": [["new"], ["start"], ["finish", "right"]],
+        "wrong-restart-right": [["new"], ["start"], ["finish", "wrong"], ["start"], ["finish", "right"]],
+        "drop-M4-restart": [["new"], ["start"], ["drop", 3, "resp"], ["finish", "right"], ["start"], ["finish", "right"]],
+        "two-discoveries": [["new"], ["start"], ["finish", "wrong"], ["new"], ["start"], ["finish", "right"]],
+    },
+}
+
+
+def random_history(rng, transport):
+    """rounds of (maybe a new discovery) (maybe a fresh start) (maybe a link drop) finish; the last finish has the right code"""
+    h = [["new"], ["start"]]
+    rounds = rng.choice([1, 2, 2, 3, 4])
+    for r in range(rounds):
+        last = r == rounds - 1
+        if r and (transport != "ble" or rng.random() < 0.3):
+            # IP / CoAP have no restart inside finish_pairing: the caller starts over (HAP: a failed attempt ends the exchange)
+            h += rng.choice([[["start"]], [["new"], ["start"]]])
+        elif rng.random() < 0.15:
+            h += [["start"]]
+        dropped = False
+        if rng.random() < 0.4:
+            st, ph = rng.choice([(3, "req"), (3, "resp"), (3, "resp-mid"), (5, "req")] if transport != "coap" else [(3, "req"), (3, "resp")])
+            h.append(["drop", st, ph])
+            dropped = True
+        code = "right" if last or dropped else rng.choice(["wrong", "wrong", "right"])
+        h.append(["finish", code])
+        paired = code == "right" and (not dropped or transport == "ble")  # BLE retries a dropped link itself
+        if paired and not last:
+            h += [["reset"], ["new"], ["start"]]
+        if last and not paired:
+            h += [["start"], ["finish", "right"]]
+    return h
+
+
+def run_history(case):
+    """play one history against the real transport code; -> (problems [(signature, what)], summary for the evidence)"""
+    import asyncio
+    import random as _random
+    from collections import defaultdict
+    from contextlib import ExitStack
+    from unittest.mock import MagicMock
+
+    from aiohomekit.characteristic_cache import CharacteristicCacheMemory
+
+    from harness import simnet
+    t = case["transport"]
+    acc = SetupAccessory(case["pin"], _random.Random(case["seed"]))
+    crnd = _random.Random(case["seed"] + 1)
+    ulog = defaultdict(list)
+
+    def urandom(n):
+        v = bytes(crnd.randrange(256) for _ in range(n))
+        ulog[acc.call].append(v)
+        return v
+
+    loop = simnet.VLoop()
+    controller = MagicMock()
+    controller._char_cache = CharacteristicCacheMemory()
+    controller.pairings = {}
+    tr = TRANSPORTS[t](acc, case, controller, loop)
+    problems, outcomes = [], []
+
+    def judge(call, right, outcome):
+        """the oracle, from the accessory's records alone"""
+        g, N = refacc.G, refacc.N3072
+        for r in [r for r in acc.exchanges if r["m3"] and r["m3"]["call"] == call]:
+            srv, A_b, proof = r["srv"], r["m3"]["A"], r["m3"]["proof"]
+            which = f"exchange #{r['n']} of {len(acc.exchanges)} (salt {hx(srv.salt)}, B {hx(refacc.PAD(srv.B)[:6])}..)"
+            if not right:
+                if proof == srv.M1:
+                    problems.append((f"transport/{t}/wrong-code-accepted", f"{which}: a wrong setup code ({case['wrong']} for {acc.pin}) gave a proof the accessory accepts"))
+                continue
+            if A_b not in {refacc.PAD(pow(g, int.from_bytes(v, "big"), N)) for v in ulog[call] if len(v) == 16}:
+                problems.append((f"transport/{t}/A", f"{which}: the public value in M3 ({len(A_b)} bytes, {hx(A_b[:6])}..) is not PAD(g^a mod N) for the secret the controller drew in this call"))
+            if proof != srv.M1:
+                stale = None
+                for e in acc.exchanges:
+                    if e is not r:
+                        twin = refacc.SrpServer(acc.pin, e["srv"].salt, e["srv"].b)
+                        twin.on_A(A_b)
+                        if twin.M1 == proof:
+                            stale = e
+                why = f"; it is the proof for the abandoned exchange #{stale['n']} (salt {hx(stale['srv'].salt)})" if stale else ""
+                problems.append((f"transport/{t}/M1", f"{which}, correct setup code {acc.pin}: the accessory rejects the controller's proof {hx(proof[:8])}.. (it computes {hx(srv.M1[:8])}..){why}; outcome {outcome}"))
+            elif r["m4"] and not r["lost"] and r["m5"] is None:
+                problems.append((f"transport/{t}/M2-rejected", f"{which}: the accessory's correct proof was delivered but the controller did not go on to M5; outcome {outcome}"))
+            elif r["m5"] == "bad":
+                problems.append((f"transport/{t}/K", f"{which}: the accessory cannot open M5 - the controller's session key is not the accessory's K; outcome {outcome}"))
+        for s in [s for s in acc.stray if s["call"] == call and s["state"] == 3 and right]:
+            for e in acc.exchanges:
+                twin = refacc.SrpServer(acc.pin, e["srv"].salt, e["srv"].b)
+                twin.on_A(s["A"])
+                if twin.M1 == s["proof"]:
+                    problems.append((f"transport/{t}/stale-exchange", f"the controller sent an M3 whose proof belongs to the abandoned exchange #{e['n']} (salt {hx(e['srv'].salt)}) on a link where no exchange is in progress; outcome {outcome}"))
+
+    async def main():
+        d = finish = None
+        made = []
+        for op in case["history"]:
+            acc.call += 1
+            if op[0] == "new":
+                d = tr.discovery()
+                made.append(d)
+                finish = None
+            elif op[0] == "reset":
+                acc.reset()
+            elif op[0] == "drop":
+                acc.drop = [op[1], op[2]]
+            elif op[0] == "start":
+                n0, armed = len(acc.exchanges), acc.drop is not None
+                try:
+                    finish = await asyncio.wait_for(d.async_start_pairing("alias"), 900)
+                    outcomes.append("started")
+                except Exception as e:  # noqa: BLE001
+                    finish = None
+                    outcomes.append("start:" + type(e).__name__)
+                    if not armed and not acc.dropped and len(acc.exchanges) > n0:
+                        problems.append((f"transport/{t}/M2-refused", f"async_start_pairing refuses the accessory's M2 (salt {hx(acc.exchanges[-1]['srv'].salt)}): {type(e).__name__}: {e}"))
+                acc.drop = None
+            elif op[0] == "finish":
+                if finish is None:
+                    outcomes.append("no-finish")
+                    continue
+                right = op[1] == "right"
+                try:
+                    await asyncio.wait_for(finish(acc.pin if right else case["wrong"]), 900)
+                    out = "paired"
+                except Exception as e:  # noqa: BLE001
+                    out = type(e).__name__
+                outcomes.append(out)
+                judge(acc.call, right, out)
+                acc.drop = None
+        for x in made:
+            try:
+                await asyncio.wait_for(tr.close(x), 900)
+            except Exception:  # noqa: BLE001
+                pass
+        rest = [x for x in asyncio.all_tasks() if x is not asyncio.current_task()]
+        for x in rest:
+            x.cancel()
+        if rest:
+            await asyncio.wait(rest, timeout=900)
+
+    with ExitStack() as stack:
+        for p in tr.patches():
+            stack.enter_context(p)
+        stack.enter_context(mock.patch.object(srpmod.os, "urandom", urandom))
+        try:
+            loop.run_until_complete(main())
+        finally:
+            loop.close()
+    judged = [r for r in acc.exchanges if r["m3"]]
+    return problems, {"outcomes": outcomes, "exchanges": len(acc.exchanges), "judged": len(judged), "drops": len(acc.dropped), "stray": len(acc.stray),
+                      "completed": sum(1 for r in acc.exchanges if r["m5"] == "ok")}
+
+
+def transports(ctx):
+    """every transport's own pairing entry points against the conformant accessory, over the fixed histories and a
+    sample of random ones; link parameters (MTUs, TLV fragmentation, feature flags, TCP segmentation) drawn per history"""
+    rng = ctx.rng
+    plan = [(t, name, h) for t, hs in HISTORIES.items() for name, h in hs.items()]
+    for _ in range(ctx.budget(8, 240)):
+        t = rng.choice(["ble", "ble", "ip", "coap"])
+        plan.append((t, "random", random_history(rng, t)))
+    for t, name, h in plan:
+        pin = rng.choice(["031-45-154", "111-22-333", "000-00-000", "987-65-432"])
+        wrong = rng.choice([p for p in ["031-45-155", "111-22-333", "000-00-000", "987-65-432"] if p != pin])
+        case = {"stream": "transport", "transport": t, "name": name, "history": h, "seed": rng.randrange(1 << 48), "pin": pin, "wrong": wrong,
+                "mtu": rng.choice([100, 104, 158, 185, 247, 512]), "rmtu": rng.choice([100, 131, 185, 247, 512]), "tlvfrag": rng.choice([0, 0, 64, 200]),
+                "ff": rng.choice([0, 2]), "iids": rng.sample(range(1, 60000), 2)}
+        try:
+            problems, info = run_history(case)
+        except Exception as e:  # noqa: BLE001
+            problems, info = [(f"transport/{t}/crash", f"history {name} could not be played: {type(e).__name__}: {e}")], {"outcomes": ["crash"], "exchanges": 0, "judged": 0, "drops": 0, "stray": 0, "completed": 0}
+        ctx.evaluations += max(info["judged"], 1)
+        ctx.dist[f"transport:{t}:{name}"] += 1
+        ctx.dist[f"transport:{t}:exchanges"] += info["exchanges"]
+        ctx.dist[f"transport:{t}:exchanges-judged"] += info["judged"]
+        ctx.dist[f"transport:{t}:link-drops"] += info["drops"]
+        ctx.nontrivial.add(("transport", t, name if name != "random" else tuple(map(tuple, h)), tuple(info["outcomes"])))
+        if name != "random" and h[-1] == ["finish", "right"] and info["outcomes"][-1] != "paired" and not problems:
+            ctx.notes.append(f"transport {t}/{name}: the last finish_pairing with the right code ended with {info['outcomes'][-1]} although every SRP value was accepted (outcomes {info['outcomes']})")
+        seen = set()
+        for sig, what in problems:
+            if sig not in seen:
+                seen.add(sig)
+                ctx.violation(sig, f"{t} history '{name}' {json.dumps(h)}: {what}", case)
+        if t == "ble" and name == "wrong-then-right":
+            ctx.sample(dict(case, outcomes=info["outcomes"]), limit=8)
 
 
 def run(ctx: Ctx, driver: Driver):
@@ -219,10 +814,19 @@ def run(ctx: Ctx, driver: Driver):
         need -= hit
     if need:
         ctx.notes.append(f"directed search did not hit a leading zero in {sorted(need)} within {tries} exchanges this run")
+    # ---- the exchange as the transports run it, over histories with more than one M1/M2
+    transports(ctx)
     ctx.sample({k: v for k, v in cases[0].items()})
     compare_with_model(ctx, "client", cases, outs, lines, driver, canon=lambda s: " ".join(s.split(" ")[:3]))
     compare_with_model(ctx, "verify", vcases, vouts, vlines, driver)
 
 
 def replay(ctx, driver, c):
+    if c.get("stream") == "transport":
+        problems, info = run_history(c)
+        return {"violations": [{"signature": s, "what": w} for s, w in problems], "outcomes": info["outcomes"]} if problems else None
+    if c.get("stream") == "generators":
+        sub = Ctx(ID, "quick", 0)
+        through_generators(sub, c["pin"], unhx(c["salt"]), int(c["b"]), unhx(c["a"]), c.get("kind", "replay"))
+        return sub.violations or None
     return None
